@@ -400,3 +400,202 @@ Proof.
   inversion H; subst sh' st'. split; [reflexivity|]. split; [apply inv_b_iff, I|].
   apply overlap_exact_sound; [|exact O]. eapply resize_dim_len; eassumption.
 Qed.
+
+(* ------------------------------------------------------------ contiguous layouts (try_from_data) *)
+Definition nonzero (d : N) : bool := negb (is_zero d).
+
+Lemma nprod_nz_ge1 l : Forall (fun d => d <> 0) l -> 1 <= nprod l.
+Proof. induction 1 as [|d r Hd _ IH]; cbn [nprod]; nia. Qed.
+
+Lemma filter_nonzero_nz l : Forall (fun d => d <> 0) (filter nonzero l).
+Proof.
+  apply Forall_forall. intros x Hx. apply filter_In in Hx as [_ Hx].
+  unfold nonzero, is_zero in Hx. apply negb_true_iff, N.eqb_neq in Hx. exact Hx.
+Qed.
+
+Lemma nz_prod_ge1 l : 1 <= nz_prod l.
+Proof. apply nprod_nz_ge1, filter_nonzero_nz. Qed.
+
+Lemma nz_prod_cons d r : nz_prod (d :: r) = if d =? 0 then nz_prod r else d * nz_prod r.
+Proof.
+  unfold nz_prod. cbn [filter]. unfold is_zero. destruct (d =? 0); cbn [negb nprod]; reflexivity.
+Qed.
+
+Lemma nprod_le_nz_prod l : nprod l <= nz_prod l.
+Proof.
+  induction l as [|d r IH]; [cbn; lia|].
+  rewrite nz_prod_cons. cbn [nprod]. destruct (d =? 0) eqn:E.
+  - apply N.eqb_eq in E. subst. lia.
+  - nia.
+Qed.
+
+Lemma nz_prod_tail d r : nz_prod r <= nz_prod (d :: r).
+Proof.
+  rewrite nz_prod_cons. destruct (d =? 0) eqn:E; [lia|]. apply N.eqb_neq in E. nia.
+Qed.
+
+Lemma nz_prod_app a b : nz_prod (a ++ b) = nz_prod a * nz_prod b.
+Proof.
+  induction a as [|d r IH]; [cbn [app]; unfold nz_prod at 2; cbn; lia|].
+  cbn [app]. rewrite !nz_prod_cons, IH. destruct (d =? 0); lia.
+Qed.
+
+Lemma checked_prod_spec : forall l acc, Forall (fun d => d <> 0) l -> acc < two64 ->
+  checked_prod l acc = if acc * nprod l <? two64 then Some (acc * nprod l) else None.
+Proof.
+  induction l as [|d r IH]; intros acc Hnz Ha.
+  - cbn [checked_prod nprod]. rewrite N.mul_1_r. apply N.ltb_lt in Ha. rewrite Ha. reflexivity.
+  - inversion Hnz as [|? ? Hd Hr]; subst. cbn [checked_prod nprod].
+    pose proof (nprod_nz_ge1 _ Hr).
+    destruct (acc * d <? two64) eqn:E.
+    + rewrite IH by (try assumption; apply N.ltb_lt; exact E). rewrite N.mul_assoc. reflexivity.
+    + apply N.ltb_ge in E. destruct (acc * (d * nprod r) <? two64) eqn:E2; [|reflexivity].
+      apply N.ltb_lt in E2. nia.
+Qed.
+
+Lemma checked_nz_len_spec shape :
+  checked_nz_len shape = if nz_prod shape <? two64 then Some (nz_prod shape) else None.
+Proof.
+  unfold checked_nz_len. rewrite checked_prod_spec; [|apply filter_nonzero_nz|reflexivity].
+  rewrite N.mul_1_l. reflexivity.
+Qed.
+
+(* a product taken left to right stays below the product of the non-zero entries *)
+Lemma prod_m_exact m : forall l acc, acc * nz_prod l < two64 -> prod_m m l acc = Val (acc * nprod l).
+Proof.
+  induction l as [|d r IH]; intros acc Hb.
+  - cbn [prod_m nprod]. f_equal. lia.
+  - cbn [prod_m nprod]. rewrite nz_prod_cons in Hb. pose proof (nz_prod_ge1 r).
+    destruct (d =? 0) eqn:E.
+    + apply N.eqb_eq in E. subst d. rewrite mul_m_exact by (rewrite N.mul_0_r; reflexivity).
+      cbn [bind]. rewrite IH by (rewrite N.mul_0_r, N.mul_0_l; reflexivity). f_equal. lia.
+    + rewrite mul_m_exact by nia. cbn [bind]. rewrite IH by nia. f_equal. lia.
+Qed.
+
+Lemma nd_contig_exact m : forall shape, nz_prod shape < two64 ->
+  nd_contig m shape = Val (contig_strides shape).
+Proof.
+  induction shape as [|d r IH]; intros Hb; [reflexivity|].
+  pose proof (nz_prod_tail d r).
+  cbn [nd_contig contig_strides]. rewrite prod_m_exact by lia. cbn [bind].
+  rewrite IH by lia. cbn [bind]. rewrite N.mul_1_l. reflexivity.
+Qed.
+
+Lemma dyn_contig_aux_exact m : forall pre suf, nz_prod (pre ++ suf) < two64 ->
+  dyn_contig_aux m (rev pre) (nprod suf) (contig_strides suf) = Val (contig_strides (pre ++ suf)).
+Proof.
+  induction pre as [|d init IH] using rev_ind; intros suf Hb.
+  - reflexivity.
+  - rewrite rev_app_distr. cbn [rev app dyn_contig_aux].
+    rewrite <- app_assoc in Hb. cbn [app] in Hb.
+    assert (Hd : nprod suf * d < two64).
+    { pose proof (nprod_le_nz_prod (d :: suf)) as H1. cbn [nprod] in H1.
+      rewrite nz_prod_app in Hb. pose proof (nz_prod_ge1 init). nia. }
+    rewrite mul_m_exact by exact Hd. cbn [bind].
+    replace (nprod suf * d) with (nprod (d :: suf)) by (cbn [nprod]; lia).
+    change (nprod suf :: contig_strides suf) with (contig_strides (d :: suf)).
+    rewrite IH by exact Hb. rewrite <- app_assoc. reflexivity.
+Qed.
+
+Lemma dyn_contig_exact m shape : nz_prod shape < two64 ->
+  dyn_contig m shape = Val (contig_strides shape).
+Proof.
+  intros Hb. unfold dyn_contig.
+  pose proof (dyn_contig_aux_exact m shape [] ltac:(rewrite app_nil_r; exact Hb)) as H.
+  cbn [nprod contig_strides] in H. rewrite app_nil_r in H. exact H.
+Qed.
+
+Lemma from_shape_m_exact m k shape : nz_prod shape < two64 ->
+  from_shape_m m k shape = Val (contig_strides shape).
+Proof. destruct k; cbn [from_shape_m]; [apply nd_contig_exact|apply dyn_contig_exact]. Qed.
+
+(* the telescoping sum: a contiguous layout needs exactly product-of-shape elements *)
+Lemma max_off_contig shape : Forall (fun s => s <> 0) shape ->
+  max_off (combine (contig_strides shape) shape) + 1 = nprod shape.
+Proof.
+  induction 1 as [|d r Hd _ IH]; [reflexivity|].
+  cbn [contig_strides combine max_off nprod]. unfold d_size, d_stride; cbn [fst snd]. nia.
+Qed.
+
+Lemma has_zero_nprod shape : has_zero_dim shape = true -> nprod shape = 0.
+Proof.
+  induction shape as [|d r IH]; [discriminate|]. cbn [has_zero_dim existsb nprod].
+  intros H. apply orb_true_iff in H as [H|H].
+  - unfold is_zero in H. apply N.eqb_eq in H. subst. lia.
+  - rewrite (IH H). lia.
+Qed.
+
+Lemma min_data_len_contig m shape : nz_prod shape < two64 ->
+  min_data_len_m m shape (contig_strides shape) = Val (nprod shape).
+Proof.
+  intros Hb. destruct (has_zero_dim shape) eqn:Z.
+  - unfold min_data_len_m. rewrite Z, (has_zero_nprod _ Z). reflexivity.
+  - pose proof (max_off_contig _ (has_zero_false_Forall _ Z)) as E.
+    pose proof (nprod_le_nz_prod shape).
+    rewrite min_data_len_m_exact by (try assumption; lia). rewrite E. reflexivity.
+Qed.
+
+Theorem try_from_data_exact m k shape n :
+  try_from_data m k shape n = try_from_data_spec shape n.
+Proof.
+  unfold try_from_data, try_from_data_spec. rewrite checked_nz_len_spec.
+  destruct (nz_prod shape <? two64) eqn:E; [|reflexivity].
+  apply N.ltb_lt in E. unfold try_from_data_old.
+  rewrite from_shape_m_exact by exact E. cbn [bind].
+  rewrite min_data_len_contig by exact E. cbn [bind lift]. reflexivity.
+Qed.
+
+Lemma contig_inv shape : Inv shape (contig_strides shape) (nprod shape).
+Proof.
+  apply inv_b_iff. unfold inv_b. destruct (has_zero_dim shape) eqn:Z; [reflexivity|]. cbn [orb].
+  rewrite (max_off_contig _ (has_zero_false_Forall _ Z)). apply N.leb_le. lia.
+Qed.
+
+Theorem try_from_data_inv m k shape n sh st :
+  try_from_data m k shape n = Accept sh st ->
+  sh = shape /\ st = contig_strides shape /\ n = nprod shape /\ n < two64 /\ Inv sh st n.
+Proof.
+  rewrite try_from_data_exact. unfold try_from_data_spec.
+  destruct (nz_prod shape <? two64) eqn:E; [|discriminate].
+  destruct (nprod shape =? n) eqn:E2; [|discriminate].
+  apply N.eqb_eq in E2. apply N.ltb_lt in E. intros H. injection H as Hs Ht. subst sh st n.
+  pose proof (nprod_le_nz_prod shape).
+  repeat (split; [reflexivity || lia|]). apply contig_inv.
+Qed.
+
+Theorem from_data_inv m k shape n sh st :
+  from_data m k shape n = Accept sh st ->
+  sh = shape /\ st = contig_strides shape /\ n = nprod shape /\ n < two64 /\ Inv sh st n.
+Proof.
+  unfold from_data. intros H. apply (try_from_data_inv m k).
+  destruct (try_from_data m k shape n); cbn [err_to_panic] in H; try discriminate. exact H.
+Qed.
+
+Lemma contig_strides_length shape : length (contig_strides shape) = length shape.
+Proof. induction shape; cbn [contig_strides length]; congruence. Qed.
+
+(* a contiguous layout never aliases *)
+Theorem contig_injective shape : Injective shape (contig_strides shape).
+Proof.
+  destruct (has_zero_dim shape) eqn:Z.
+  - intros i j Hi. exfalso. exact (has_zero_true_no_index _ _ Z Hi).
+  - apply injective_Injective; [rewrite contig_strides_length; lia|].
+    pose proof (has_zero_false_Forall _ Z) as Hnz.
+    apply contiguous_injective; [apply combine_nz; exact Hnz|].
+    unfold is_contiguous.
+    (* contig_aux on the reversed dims, generalised over the processed suffix *)
+    assert (G : forall pre suf, Forall (fun s => s <> 0) (pre ++ suf) ->
+               contig_aux false (rev (combine (contig_strides (pre ++ suf)) (pre ++ suf))) 1 = true ->
+               True) by trivial.
+    clear G.
+    assert (H : forall sh, Forall (fun s => s <> 0) sh -> forall tl,
+               contig_aux false (rev (combine (contig_strides sh) sh) ++ tl) 1 =
+               contig_aux false tl (nprod sh)).
+    { induction 1 as [|d r Hd Hr IH]; intros tl; [reflexivity|].
+      cbn [contig_strides combine rev]. rewrite <- app_assoc. rewrite IH. cbn [app contig_aux wr].
+      unfold d_size, d_stride; cbn [fst snd]. rewrite N.eqb_refl.
+      destruct (d =? 1) eqn:E1.
+      - apply N.eqb_eq in E1. subst d. cbn [nprod]. rewrite N.mul_1_l. reflexivity.
+      - cbn [nprod]. rewrite (N.mul_comm (nprod r) d). reflexivity. }
+    specialize (H _ Hnz []). rewrite app_nil_r in H. rewrite H. reflexivity.
+Qed.
